@@ -53,7 +53,7 @@ func leftovers(w *coresim.World, f facts, ctx string) (out []vrt.Violation) {
 		_ = w.Cleanup(nil)
 		vrt.Quiesce("after-cleanup")
 		for _, t := range w.M.AliveTasks() {
-			if t.EnvID == f.envID && t.Kills == 0 {
+			if (t.EnvID == f.envID || f.envID == "") && t.Kills == 0 {
 				fail("task-never-asked-to-terminate:"+t.Class, "task %s (%s) launched for %s is alive at the master, was never sent a KILL and is out of reach of CleanupTasks (roster: %v)", t.ID, t.Class, f.envID, w.TaskOwners())
 			}
 		}
@@ -192,6 +192,7 @@ func createCases() []createCase {
 		{"configure-silent", "c06-2", on("c06a", "CONFIGURE", coresim.Silent), nil},
 		{"configure-dies", "c06-2", on("c06a", "CONFIGURE", coresim.Dies), nil},
 		{"configure-undeliverable", "c06-2", on("c06b", "CONFIGURE", coresim.Undeliverable), nil},
+		{"no-fault-schedule-only-b", "c06-hooks0", ok, nil},
 		{"no-fault-schedule-only", "c06-2", ok, nil}, // fails only on unlucky schedules (bound >= 1); then nothing may be left behind either
 	}
 }
@@ -249,7 +250,7 @@ func createScenario() *vrt.Scenario {
 				return nil
 			}
 			if f.rpcErr == nil {
-				if cc.name == "noncritical-launch-fails" || cc.name == "configure-undeliverable" || cc.name == "no-fault-schedule-only" {
+				if cc.name == "noncritical-launch-fails" || cc.name == "configure-undeliverable" || strings.HasPrefix(cc.name, "no-fault-schedule-only") {
 					return nil // non-critical failures may let the creation succeed (C02)
 				}
 				return []vrt.Violation{{Clause: "creation-succeeded:" + cc.name, Detail: desc}}
